@@ -287,3 +287,16 @@ def save_replay(prop, name, obj):
     p = os.path.join(REPLAYS, f"{prop}-{name}.json")
     json.dump(obj, open(p, "w"), indent=1, ensure_ascii=False)
     return p
+
+
+def merge_run(run, vec_paths, tokens, n, cap, stride=1, offset=0, timeout=3000):
+    out = run.fresh("merge", ".json")
+    wit = run.fresh("mwit", ".ndjson")
+    cmd = [HARNESS, "merge", "--vectors"] + list(vec_paths) + ["--tokens", json.dumps(tokens), "--n", str(n), "--cap", str(cap),
+           "--scratch", run.dir, "--witness-out", wit, "--out", out, "--stride", str(stride), "--offset", str(offset)]
+    p = sh(cmd, timeout=timeout, check=False)
+    if p.returncode != 0:
+        raise ToolError("harness merge failed: " + p.stdout[-3000:])
+    j = json.load(open(out))
+    j["witness_file"] = wit
+    return j
